@@ -143,15 +143,20 @@ Definition ctx_kind (k : ctxk) : errk := match k with CtxCancelled => ECancelled
 (* the error as exec reports it (after ConvertContextError when that comes first) *)
 Definition base_kind (o : outcome) : errk :=
   match o with
-  | Exited c => if c =? 0 then ENil else EExit c
+  | Exited c => if c =? 0 then (if wait_delay_set F then EOther (* exec.ErrWaitDelay, worst case: see below *) else ENil)
+                else EExit c
   | Signaled s => ESignal s
   | StartCtx k => if conv_ctx_first F then ctx_kind k else EOther
   | StartNotFound | StartFailed => EOther
   end.
 
+(* With a WaitDelay the model takes the worst case: the delay always expires before the copying goroutines are done, so
+   a child which exited with status 0 is reported with exec.ErrWaitDelay and nothing of its output is guaranteed
+   ([delivered] below). The theorems therefore need io_ok; the code as it is sets no WaitDelay. *)
 Definition cond_holds (c : rcond) (o : outcome) : bool :=
   match c, o with
-  | RcNil, Exited c => c =? 0
+  | RcNil, Exited c => (c =? 0) && negb (wait_delay_set F)
+  | RcWaitDelay, Exited c => (c =? 0) && wait_delay_set F
   | RcSignalText l, Signaled s => existsb (Z.eqb s) l
   | RcExecNotFound, StartNotFound => true
   | _, _ => false
@@ -182,6 +187,10 @@ Definition end_entry (e : errk) : entry := if Bool.eqb (is_nil e) (end_ok_iff_ni
 
 Definition ran (o : outcome) : bool := match o with Exited _ | Signaled _ => true | _ => false end.
 
+(* the pipe reads which are guaranteed to have reached the adapters when Wait returns *)
+Definition delivered (o : outcome) (evs : list (stream * bytes)) : list (stream * bytes) :=
+  if ran o && negb (wait_delay_set F) then evs else [].
+
 (* [ctx] = state of the process context when Run returns, [pctx] = state of the context given by the caller. *)
 Definition ctx_of (src : ctxsrc) (ctx pctx : option ctxk) : option ctxk :=
   match src with CtxProcess => ctx | CtxParent => pctx end.
@@ -191,7 +200,7 @@ Fixpoint run_exec (ops : list xop) (wm : bool) (ctx pctx : option ctxk) (o : out
   match ops with
   | [] => st
   | XLogStart :: r => run_exec r wm ctx pctx o evs (fst st ++ (if wm then [EStart] else []), snd st)
-  | XRun :: r => run_exec r wm ctx pctx o evs (fst st ++ child_log (if ran o then evs else []), convert_process_error o)
+  | XRun :: r => run_exec r wm ctx pctx o evs (fst st ++ child_log (delivered o evs), convert_process_error o)
   | XCtxOverride src :: r =>
       run_exec r wm ctx pctx o evs
         (fst st, match snd st with
